@@ -35,6 +35,8 @@ class LinearLayerTT(nn.Module):
             InvalidArguments: Initializer not defined. Possible choices are 'He' and 'Glo'.
         """
         super().__init__()
+        if len(size_in) != len(size_out):
+            raise InvalidArguments('The input and the output shape must have the same number of modes.')
         self.size_in, self.size_out, self.rank = list(size_in), list(size_out), rank
         if initializer=='He':
             t = torchtt.randn([(s2,s1) for s1,s2 in zip(size_in,size_out)], rank, dtype=dtype, var = 2/tn.prod(tn.tensor([s1 for s1 in size_in])))
@@ -68,6 +70,9 @@ class LinearLayerTT(nn.Module):
         """
         
         # return dense_matvec(self.cores,x) + self.bias
+        if len(x.shape) < len(self.size_in) or list(x.shape[len(x.shape)-len(self.size_in):]) != self.size_in:
+            # (tensordot would silently broadcast a singleton mode)
+            raise ShapeMismatch('The trailing dimensions of the input must be the input shape of the layer.')
         
         result = tn.unsqueeze(x,-1)
 
